@@ -127,6 +127,10 @@ def extra(ck, data, rules, docg):
             f = os.path.join(tmp, "y%d.vhd" % i)
             open(f, "w").write("architecture a of e is\nbegin\n  p : process is\n  begin\n    %s\n  end process p;\nend architecture a;\n" % l)
             jobs3.append((f, ["--fix", "-p", "1"], l))
+        for i, l in enumerate(lex["first_line_errors"]):
+            f = os.path.join(tmp, "z%d.vhd" % i)
+            open(f, "w").write(l + "\n")
+            jobs3.append((f, ["-p", "1"], l))
         texts3 = {f: (open(f).read(), l) for f, _, l in jobs3}
         with Pool(vlib.NCPU) as p:
             res3 = p.map(_cli, [(f, a) for f, a, _ in jobs3])
